@@ -327,6 +327,54 @@ pub fn gen_conflict(r: &mut Rng, feat: u32) -> (Universe, Prob) {
     (u, Prob { reqs, cons: vec![], soft })
 }
 
+/// C15: one package with n candidates revealed through group requirements in
+/// random order and partition; the problem requires one specific candidate
+/// (must be solvable) or two different ones (must be unsolvable).
+pub fn gen_amo(r: &mut Rng, n: u32) -> (Universe, Prob) {
+    let mut u = Universe::default();
+    let mut p = Pkg::default();
+    let mut ranks: Vec<u32> = (0..n).collect();
+    r.shuffle(&mut ranks);
+    for i in 0..n {
+        u.sols.push(Sol { name: 0, rank: ranks[i as usize], deps: Some(Known { reqs: vec![], cons: vec![] }) });
+        p.cands.push(i);
+    }
+    r.shuffle(&mut p.cands);
+    u.pkgs.push(p);
+    let i = r.below(n as u64) as u32;
+    let pair = n >= 2 && r.chance(1, 2);
+    let mut j = i;
+    if pair {
+        while j == i {
+            j = r.below(n as u64) as u32;
+        }
+    }
+    let targets: Vec<u32> = if pair { vec![i, j] } else { vec![i] };
+    // random partition of the other candidates into groups, each group also matching the targets
+    let mut others: Vec<u32> = (0..n).filter(|x| !targets.contains(x)).collect();
+    r.shuffle(&mut others);
+    // sometimes leave a few candidates undiscovered
+    let keep = if r.chance(1, 4) { r.below(others.len() as u64 + 1) as usize } else { others.len() };
+    others.truncate(keep);
+    let mut reqs = vec![];
+    let mut k = 0;
+    while k < others.len() {
+        let sz = 1 + r.below(6) as usize;
+        let mut m: Vec<u32> = others[k..(k + sz).min(others.len())].to_vec();
+        m.extend(targets.iter().copied());
+        r.shuffle(&mut m);
+        u.vss.push(Vs { name: 0, matching: m });
+        reqs.push(Req::Single(u.vss.len() as u32 - 1));
+        k += sz;
+    }
+    for &t in &targets {
+        u.vss.push(Vs { name: 0, matching: vec![t] });
+        reqs.push(Req::Single(u.vss.len() as u32 - 1));
+    }
+    r.shuffle(&mut reqs);
+    (u, Prob { reqs, cons: vec![], soft: vec![] })
+}
+
 pub fn gen_case(id: u64, seed: u64, class: &str, feat: u32) -> Case {
     let mut r = Rng::new(seed.wrapping_mul(0x100000001B3).wrapping_add(id));
     let (u, p) = match class {
@@ -334,6 +382,8 @@ pub fn gen_case(id: u64, seed: u64, class: &str, feat: u32) -> Case {
         "dense" => gen_universe(&mut r, feat, &DENSE),
         "greedy" => gen_greedy(&mut r, feat),
         "conflict" => gen_conflict(&mut r, feat),
+        // for this class `feat` is the largest candidate count; sizes cycle 1..=feat
+        "amo" => gen_amo(&mut r, 1 + (id % feat.max(1) as u64) as u32),
         other => panic!("unknown class {other}"),
     };
     Case { id, class: class.to_string(), u, p }
